@@ -96,8 +96,27 @@ def _type_print_sites(m):
     return out
 
 
+def _written_by_overwrite(repo):
+    """{'var': {...}, 'func': {...}}: declaration attributes TypeOverwriting.visit_func_decl stores per node kind"""
+    f = repo.method("src.transformations.type_overwriting.TypeOverwriting", "visit_func_decl", inherited=False)
+    out = {"var": set(), "func": set()}
+    for n in iter_own_nodes(f.node):
+        if isinstance(n, ast.Assign) and isinstance(n.targets[0], ast.Attribute) and src(n.targets[0].value).endswith(".decl"):
+            gs = [(src(t), p) for t, p in flat_guards(n)]
+            only_var = any(p and "VariableDeclaration" in s_ for s_, p in gs)
+            only_func = any((not p) and "VariableDeclaration" in s_ for s_, p in gs)
+            if not only_func:
+                out["var"].add(n.targets[0].attr)
+            if not only_var:
+                out["func"].add(n.targets[0].attr)
+    if not out["var"] or not out["func"]:
+        raise AnalysisError("cannot extract the attributes TypeOverwriting writes", rule="C12-R2", anchor=f.qualname)
+    return out
+
+
 def r1_r2_annotations(repo):
     obs = []
+    written = _written_by_overwrite(repo)
     for lang in LANGS:
         for kind, vname in (("var", "visit_var_decl"), ("func", "visit_func_decl")):
             m = _visitor(repo, lang, vname)
@@ -107,13 +126,22 @@ def r1_r2_annotations(repo):
             for _c, attrs, _g in sites:
                 printed |= attrs
             # R2 (overwritten type really present): something written by the overwrite is printed
-            ok = bool(printed & WRITTEN_BY_OVERWRITE[kind])
+            ok = bool(printed) and printed <= written[kind] and printed <= WRITTEN_BY_OVERWRITE[kind]
             obs.append(Ob("C12-R2", "%s:%s:prints-an-attribute-the-overwrite-writes" % (lang, kind), _w(m), ok,
-                          "type attributes printed by %s.%s: %s; TypeOverwriting writes %s for this node kind"
-                          % (lang, vname, sorted(printed), sorted(WRITTEN_BY_OVERWRITE[kind]))))
+                          "every type attribute printed by %s.%s (%s) must be one that TypeOverwriting writes for this node "
+                          "kind (%s, extracted from its visit_func_decl), otherwise an overwritten type is invisible in %s"
+                          % (lang, vname, sorted(printed), sorted(written[kind]), lang)))
             if omit_attr is None:
                 obs.append(Ob("C12-R1", "%s:%s:annotation-always-printed" % (lang, kind), _w(m), bool(sites),
                               "exempt from omission: " + NO_OMISSION_REASON[(lang, kind)]))
+                if (lang, kind) == ("groovy", "func"):
+                    # nested functions are closures: `def name = {...}` when the return type was erased,
+                    # `Closure<R> name = {...}` otherwise - that choice must test node.ret_type
+                    guarded = [c for c, attrs, gl in sites if any(g[0] == "ret_type" and g[1] for g in gl)]
+                    obs.append(Ob("C12-R1", "groovy:func:closure-form-typed-iff-ret_type-present", _w(m), bool(guarded),
+                                  "the Closure<R> form of a nested function must be chosen by testing node.ret_type (the "
+                                  "attribute erasure clears), not a type computed from the inferred type; sites guarded by "
+                                  "node.ret_type: %d of %d" % (len(guarded), len(sites))))
                 continue
             # R1: every site is guarded by presence of the attribute erasure clears
             for i, (c, attrs, gl) in enumerate(sites):
@@ -698,6 +726,14 @@ def _v_partial_visit(tree):
     lp.iter = V.parse_expr("children[1:]")
 
 
+def _v_groovy_closure_type(tree):
+    f = V.find_def(tree, "GroovyTranslator.visit_func_decl")
+    x = [n for n in ast.walk(f) if isinstance(n, ast.IfExp) and "Closure<" in ast.unparse(n)]
+    if not x:
+        raise V.SkipVariant("closure form")
+    x[0].test = V.parse_expr("not ret_type or ret_type == gt.Void")
+
+
 def _t_rename(tree):
     f = V.find_def(tree, "KotlinTranslator.visit_class_decl")
     V.rename_local(f, "len_fields", "n_fields")
@@ -718,6 +754,7 @@ def variants():
         V.Variant("scala: field declaration appended twice", "src/translators/scala.py", _v_double_append, {"C12-R6"}),
         V.Variant("java: a visitor returns nothing", "src/translators/java.py", _v_java_no_return, {"C12-R6"}),
         V.Variant("groovy: visit_new skips its first child", "src/translators/groovy.py", _v_partial_visit, {"C12-R6"}),
+        V.Variant("groovy: closure form decided by the inferred type", "src/translators/groovy.py", _v_groovy_closure_type, {"C12-R1"}),
         V.Variant("twin: rename locals in Kotlin visit_class_decl", "src/translators/kotlin.py", _t_rename, None, twin=True),
         V.Variant("twin: whole tree reformatted by ast.unparse", None, None, None, twin=True),
     ]
